@@ -181,7 +181,7 @@ def _html_doc(seed, feature, twin, fmt):
     exp.tables_claimed = True
     if feature:
         exp.features.add(feature if not twin else feature + "#twin")
-    pay = ["", " é", " 😀"]
+    pay = ["", " é", " 😀", " Generation Z", " A-Z", " v1.0", " 100%", " (draft)"]
     meta = {"title": exp.ignore(tk.new("t")) + rng.choice(pay), "author": exp.ignore(tk.new("t")) + rng.choice(pay),
             "keywords": exp.ignore(tk.new("t")), "description": exp.ignore(tk.new("t")) + rng.choice(pay)}
     exp.meta = dict(meta)
@@ -229,7 +229,7 @@ def build_epub(seed, feature=None, twin=False):
     if feature:
         exp.features.add(feature if not twin else feature + "#twin")
     risky = feature if not twin else None
-    pay = ["", " é", " 😀"]
+    pay = ["", " é", " 😀", " Generation Z", " A-Z", " v1.0", " 100%", " (draft)"]
     meta = {"title": exp.ignore(tk.new("t")) + rng.choice(pay), "author": exp.ignore(tk.new("t")) + rng.choice(pay),
             "subject": exp.ignore(tk.new("t")), "description": exp.ignore(tk.new("t")) + rng.choice(pay)}
     exp.meta = dict(meta)
